@@ -94,7 +94,9 @@ def steady_state_transport_solver(
 
     # Check cache for footprint mode
     if cache is not None and footprint:
-        cached = cache.get(z, profiles, domain, modes, meas_pt, halo, precision)
+        # look up with the halo the result will be stored under (None -> default width)
+        halo_key = max(domain) if halo is None else halo
+        cached = cache.get(z, profiles, domain, modes, meas_pt, halo_key, precision)
         if cached is not None:
             _verif.emit("return_cached")
             return cached
